@@ -1435,7 +1435,19 @@ class GroupBy:
         else:
             group_index = group_index[group_counts > 0]
 
-        if np.ndim(results_per_value[0][0]) == 0:
+        if len(results) == 0:
+            # no selected row carries a non-null key: there is no group to call func on
+            if transform:
+                arrays = [np.full(len(self), np.nan) for _ in value_list]
+                index = (
+                    common_index
+                    if common_index is not None
+                    else pd.RangeIndex(len(self))
+                )
+            else:
+                arrays = [np.empty(0, dtype=np.float64) for _ in value_list]
+                index = group_index[:0]
+        elif np.ndim(results_per_value[0][0]) == 0:
             # safe to assume it's a scalar value function
             arrays = map(np.array, results_per_value)
             if transform:
